@@ -101,12 +101,14 @@ func (c *clientApp) setDefaults() (err error) {
 	}
 	var defaultTag *sts.TagConf
 	for _, tag := range c.conf.Tags {
-		if tag.Pattern == nil {
-			defaultTag = tag
-			break
-		}
+		// (every tag, also the ones listed after the default tag: a tag that
+		// is left without a method counts as "not HTTP" further down and its
+		// files would be ignored)
 		if tag.Method == "" {
 			tag.Method = sts.MethodHTTP
+		}
+		if tag.Pattern == nil && defaultTag == nil {
+			defaultTag = tag
 		}
 	}
 	if defaultTag == nil {
